@@ -490,9 +490,9 @@ Proof.
     try (pose proof (Hp _ _ Ega) as Hv; pose proof (len_nonneg (els v)); pose proof Hv as [HvB HvS]; pose proof (b_size_cap c Hc _ HvB));
     try (pose proof (Hp _ _ Egb) as Hvb; pose proof (len_nonneg (els vb)); pose proof Hvb as [HvbB HvbS]).
   - (* CtorDefault *) apply PInv_set_some; assumption.
-  - (* CtorN *) destruct (0 <=? n) eqn:G; [|exact Hskip].
+  - (* CtorN *) destruct ((0 <=? n) && (n <=? M)) eqn:G; [|exact Hskip].
     apply (finish_ctor_inv p a _ _ (fresh c) n (rep n 0)); [assumption|]. apply (grow_set_ok c Hc); [assumption|lia|apply len_rep; lia|discriminate].
-  - (* CtorNV *) destruct (0 <=? n) eqn:G; [|exact Hskip].
+  - (* CtorNV *) destruct ((0 <=? n) && (n <=? M)) eqn:G; [|exact Hskip].
     apply (finish_ctor_inv p a _ _ (fresh c) n (rep n v)); [assumption|]. apply (grow_set_ok c Hc); [assumption|lia|apply len_rep; lia|discriminate].
   - (* CtorRange *) unfold append_range. destruct k.
     + apply (finish_ctor_inv p a _ _ (fresh c) (b_size c (w (fresh c)) + len vs) (els (fresh c) ++ vs)); [assumption|].
@@ -541,7 +541,7 @@ Proof.
   - (* Emplace *) destruct ((0 <=? p0) && (p0 <=? len (els v)) && arg_ok (els v) g) eqn:G; [|exact Hskip].
     apply (finish_inv p a _ _ v (len (els v) + 1) (insert_list p0 [argval (els v) g] (els v))); [assumption| |assumption].
     apply (one_incr_ok c Hc); [assumption|]. rewrite len_insert_list by lia. reflexivity.
-  - (* InsertN *) destruct ((0 <=? p0) && (p0 <=? len (els v)) && (0 <=? n) && arg_ok (els v) g) eqn:G; [|exact Hskip].
+  - (* InsertN *) destruct ((0 <=? p0) && (p0 <=? len (els v)) && (0 <=? n) && (n <=? M) && arg_ok (els v) g) eqn:G; [|exact Hskip].
     destruct (0 <? n) eqn:Gn.
     + apply (finish_inv p a _ _ v (b_size c (w v) + n) (insert_list p0 (rep n (argval (els v) g)) (els v))); [assumption| |assumption].
       apply (grow_set_ok c Hc); [assumption|lia| |discriminate]. rewrite len_insert_list by lia. rewrite len_rep by lia. lia.
@@ -571,17 +571,17 @@ Proof.
     split; cbn [w els]; [assumption|]. rewrite B, len_removelast by lia. lia.
   - (* Clear *) unfold pool_of; cbn [fst]. apply PInv_set_some; [assumption|].
     destruct (b_setSize_ok c Hc (w v) 0 HvB ltac:(lia)) as (A & B & _). split; cbn [w els]; [assumption|]. rewrite B. reflexivity.
-  - (* Resize *) destruct (0 <=? n) eqn:G; [|exact Hskip].
+  - (* Resize *) destruct ((0 <=? n) && (n <=? M)) eqn:G; [|exact Hskip].
     apply (finish_inv p a _ _ v n (take n (els v) ++ rep (n - len (els v)) 0)); [assumption| |assumption].
     apply (grow_set_ok c Hc); [assumption|lia| |].
     + rewrite len_app, len_take, len_rep' by lia. lia.
     + intros G2. lia.
-  - (* ResizeV *) destruct ((0 <=? n) && arg_ok (els v) g) eqn:G; [|exact Hskip].
+  - (* ResizeV *) destruct ((0 <=? n) && (n <=? M) && arg_ok (els v) g) eqn:G; [|exact Hskip].
     apply (finish_inv p a _ _ v n (take n (els v) ++ rep (n - len (els v)) (argval (els v) g))); [assumption| |assumption].
     apply (grow_set_ok c Hc); [assumption|lia| |].
     + rewrite len_app, len_take, len_rep' by lia. lia.
     + intros G2. lia.
-  - (* AssignN *) destruct ((0 <=? n) && arg_ok (els v) g) eqn:G; [|exact Hskip].
+  - (* AssignN *) destruct ((0 <=? n) && (n <=? M) && arg_ok (els v) g) eqn:G; [|exact Hskip].
     apply (finish_inv p a _ _ v n (rep n (argval (els v) g))); [assumption| |assumption].
     apply (grow_set_ok c Hc); [assumption|lia|apply len_rep; lia|]. intros G2. lia.
   - (* AssignRange *) unfold assign_range. destruct k.
@@ -611,10 +611,10 @@ Proof.
     + destruct (exc_check n (b_capacity c (w v))); exact Hp.
   - (* Shrink *) pose proof (b_shrink_ok (w v) HvB) as S. destruct (b_shrink c (w v)) as [w1 ev]. destruct S as (A & B & _).
     unfold pool_of; cbn [fst]. apply PInv_set_some; [assumption|]. split; cbn [w els]; [assumption|lia].
-  - (* AppendN *) destruct (0 <=? n) eqn:G; [|exact Hskip].
+  - (* AppendN *) destruct ((0 <=? n) && (n <=? M)) eqn:G; [|exact Hskip].
     apply (finish_inv p a _ _ v (b_size c (w v) + n) (els v ++ rep n 0)); [assumption| |assumption].
     apply (grow_set_ok c Hc); [assumption|lia| |discriminate]. rewrite len_app, len_rep by lia. lia.
-  - (* AppendNV *) destruct ((0 <=? n) && arg_ok (els v) g) eqn:G; [|exact Hskip].
+  - (* AppendNV *) destruct ((0 <=? n) && (n <=? M) && arg_ok (els v) g) eqn:G; [|exact Hskip].
     apply (finish_inv p a _ _ v (b_size c (w v) + n) (els v ++ rep n (argval (els v) g))); [assumption| |assumption].
     apply (grow_set_ok c Hc); [assumption|lia| |discriminate]. rewrite len_app, len_rep by lia. lia.
   - (* AppendRange *) unfold append_range. destruct k.
@@ -727,7 +727,7 @@ Proof.
     pose proof (one_incr_ok c Hc v (insert_list p0 [argval (els v) g] (after_move (is_tc c) (els v) g)) Hv ltac:(rewrite len_insert_list by (rewrite len_after_move; lia); rewrite len_after_move; reflexivity)) as P. close_threw P Hsame.
   - (* Emplace *) destruct ((0 <=? p0) && (p0 <=? len (els v)) && arg_ok (els v) g) eqn:G; [|discriminate H].
     pose proof (one_incr_ok c Hc v (insert_list p0 [argval (els v) g] (els v)) Hv ltac:(rewrite len_insert_list by lia; reflexivity)) as P. close_threw P Hsame.
-  - (* InsertN *) destruct ((0 <=? p0) && (p0 <=? len (els v)) && (0 <=? n) && arg_ok (els v) g) eqn:G; [|discriminate H].
+  - (* InsertN *) destruct ((0 <=? p0) && (p0 <=? len (els v)) && (0 <=? n) && (n <=? M) && arg_ok (els v) g) eqn:G; [|discriminate H].
     destruct (0 <? n) eqn:Gn; [|discriminate H].
     pose proof (grow_set_ok c Hc v true (b_size c (w v) + n) (insert_list p0 (rep n (argval (els v) g)) (els v)) Hv ltac:(lia) ltac:(rewrite len_insert_list by lia; rewrite len_rep by lia; lia) ltac:(discriminate)) as P. close_threw P Hsame.
   - (* InsertRange *) destruct ((0 <=? p0) && (p0 <=? len (els v))) eqn:G; [|discriminate H]. destruct k; [|discriminate Hsp].
@@ -737,11 +737,11 @@ Proof.
   - (* EraseRange *) destruct ((0 <=? p0) && (p0 <=? q) && (q <=? len (els v))); discriminate H.
   - (* PopBack *) destruct (0 <? len (els v)); discriminate H.
   - (* PopBackVal *) destruct (0 <? len (els v)); discriminate H.
-  - (* Resize *) destruct (0 <=? n) eqn:G; [|discriminate H].
+  - (* Resize *) destruct ((0 <=? n) && (n <=? M)) eqn:G; [|discriminate H].
     pose proof (grow_set_ok c Hc v (b_size c (w v) <? n) n (take n (els v) ++ rep (n - len (els v)) 0) Hv ltac:(lia) ltac:(rewrite len_app, len_take, len_rep' by lia; lia) ltac:(intros; lia)) as P. close_threw P Hsame.
-  - (* ResizeV *) destruct ((0 <=? n) && arg_ok (els v) g) eqn:G; [|discriminate H].
+  - (* ResizeV *) destruct ((0 <=? n) && (n <=? M) && arg_ok (els v) g) eqn:G; [|discriminate H].
     pose proof (grow_set_ok c Hc v (b_size c (w v) <? n) n (take n (els v) ++ rep (n - len (els v)) (argval (els v) g)) Hv ltac:(lia) ltac:(rewrite len_app, len_take, len_rep' by lia; lia) ltac:(intros; lia)) as P. close_threw P Hsame.
-  - (* AssignN *) destruct ((0 <=? n) && arg_ok (els v) g) eqn:G; [|discriminate H].
+  - (* AssignN *) destruct ((0 <=? n) && (n <=? M) && arg_ok (els v) g) eqn:G; [|discriminate H].
     pose proof (grow_set_ok c Hc v (b_size c (w v) <? n) n (rep n (argval (els v) g)) Hv ltac:(lia) ltac:(apply len_rep; lia) ltac:(intros; lia)) as P. close_threw P Hsame.
   - (* AssignRange *) destruct k; [|discriminate Hsp]. unfold assign_range in H.
     pose proof (grow_set_ok c Hc v (b_size c (w v) <? len vs) (len vs) vs Hv (len_nonneg _) eq_refl ltac:(intros; lia)) as P. close_threw P Hsame.
@@ -756,9 +756,9 @@ Proof.
     + destruct (exc_check n (b_capacity c (w v))); inversion H; subst.
       split; [intros; reflexivity|]. split; [split; [intros; reflexivity|reflexivity]|]. unfold lim_exn. rewrite E. reflexivity.
   - (* Shrink *) destruct (b_shrink c (w v)); discriminate H.
-  - (* AppendN *) destruct (0 <=? n) eqn:G; [|discriminate H].
+  - (* AppendN *) destruct ((0 <=? n) && (n <=? M)) eqn:G; [|discriminate H].
     pose proof (grow_set_ok c Hc v true (b_size c (w v) + n) (els v ++ rep n 0) Hv ltac:(lia) ltac:(rewrite len_app, len_rep by lia; lia) ltac:(discriminate)) as P. close_threw P Hsame.
-  - (* AppendNV *) destruct ((0 <=? n) && arg_ok (els v) g) eqn:G; [|discriminate H].
+  - (* AppendNV *) destruct ((0 <=? n) && (n <=? M) && arg_ok (els v) g) eqn:G; [|discriminate H].
     pose proof (grow_set_ok c Hc v true (b_size c (w v) + n) (els v ++ rep n (argval (els v) g)) Hv ltac:(lia) ltac:(rewrite len_app, len_rep by lia; lia) ltac:(discriminate)) as P. close_threw P Hsame.
   - (* AppendRange *) destruct k; [|discriminate Hsp]. unfold append_range in H. pose proof (len_nonneg vs).
     pose proof (grow_set_ok c Hc v true (b_size c (w v) + len vs) (els v ++ vs) Hv ltac:(lia) ltac:(rewrite len_app; lia) ltac:(discriminate)) as P. close_threw P Hsame.
